@@ -6,6 +6,8 @@
 -/
 import Model.RunLoop
 import Proofs.RunLoop
+import Model.Matcher
+import Proofs.Matcher
 
 namespace Props.C01
 open Model.Scan Model.Run Proofs.Run
@@ -33,5 +35,18 @@ theorem c01_runloop (m : MatcherSem σ) (scan : St) (cfg : Cfg) (hw : cfg.willRu
       { ms := ms } {}
     rw [← hy, h1, h2]; simp
   · simpa [c, collectRun, runWith, hw] using hsorted
+
+/-- Top level of the interpreter: when no component stops or skips the line, the components are
+    evaluated left to right — each in the state its predecessors left — and the line matches
+    exactly when all of them hold (logic-mode AND) / any of them holds (logic-mode OR).  `votes`
+    is that plain left-to-right evaluation; `Clean` says no expression is reached with the stop
+    or skip flag set (the cut itself is C13's clause). -/
+theorem c01_toplevel (env : Model.Interp.Env) (prog : List Model.Interp.Node) (v : Model.Interp.View)
+    (hc : Proofs.Matcher.Clean env prog v) :
+    (Model.Interp.matchLine env prog v).1 =
+      (if env.dm then (Proofs.Matcher.votes env prog v).all id else (Proofs.Matcher.votes env prog v).any id) := by
+  unfold Model.Interp.matchLine
+  rw [Proofs.Matcher.matchExprs_clean env prog v (!env.dm) none hc]
+  cases env.dm <;> simp
 
 end Props.C01
